@@ -13,6 +13,7 @@ import (
 
 	"github.com/failsafe-go/failsafe-go"
 	"github.com/failsafe-go/failsafe-go/hedgepolicy"
+	"github.com/failsafe-go/failsafe-go/retrypolicy"
 )
 
 // ---- C09: hedged executions under a virtual clock ----
@@ -24,6 +25,8 @@ type HAttempt struct {
 }
 
 type HCase struct {
+	RetryDelay int64      // > 0: the hedge sits inside a retry policy with one retry after this delay
+	Atts2      []HAttempt // attempts of the second hedged run
 	Max    int
 	Delays []int64
 	Cancel []CallD
@@ -56,6 +59,10 @@ func runHedge(t *testing.T, h HCase) (lit string, js map[string]any, hedged int,
 		var hedgeEvents []string
 		b = b.OnHedge(func(e failsafe.ExecutionEvent[int]) { hedgeEvents = append(hedgeEvents, fmt.Sprint(now())) })
 		hp := b.Build()
+		pols := []failsafe.Policy[int]{hp}
+		if h.RetryDelay > 0 {
+			pols = []failsafe.Policy[int]{retrypolicy.Builder[int]().WithMaxRetries(1).WithDelay(time.Duration(h.RetryDelay)).Build(), hp}
+		}
 		ctx := context.Background()
 		var cancel context.CancelFunc = func() {}
 		var timer *time.Timer
@@ -71,16 +78,25 @@ func runHedge(t *testing.T, h HCase) (lit string, js map[string]any, hedged int,
 		var starts []string
 		var execs []failsafe.Execution[int]
 		idx := 0
-		r, err := failsafe.NewExecutor[int](hp).WithContext(ctx).GetWithExecution(func(e failsafe.Execution[int]) (int, error) {
+		run2 := false
+		r, err := failsafe.NewExecutor[int](pols...).WithContext(ctx).GetWithExecution(func(e failsafe.Execution[int]) (int, error) {
 			mu.Lock()
+			if e.Retries() > 0 && !run2 {
+				run2 = true
+				idx = 0
+			}
 			k := idx
 			idx++
+			atts := h.Atts
+			if run2 {
+				atts = h.Atts2
+			}
 			starts = append(starts, fmt.Sprintf("{| hs_time := %d; hs_attempts := %d; hs_hedges := %d; hs_is_hedge := %s |}", now(), e.Attempts(), e.Hedges(), gBool(e.IsHedge())))
 			execs = append(execs, e)
 			mu.Unlock()
-			a := h.Atts[len(h.Atts)-1]
-			if k < len(h.Atts) {
-				a = h.Atts[k]
+			a := atts[len(atts)-1]
+			if k < len(atts) {
+				a = atts[k]
 			}
 			if a.Coop {
 				tm := time.NewTimer(time.Duration(a.Dur))
@@ -115,9 +131,17 @@ func runHedge(t *testing.T, h HCase) (lit string, js map[string]any, hedged int,
 		}
 		cancel()
 		time.Sleep(100 * time.Hour) // let abandoned attempts finish
-		as := make([]string, len(h.Atts))
-		for i, a := range h.Atts {
-			as[i] = fmt.Sprintf("{| a_dur := %d; a_out := %s; a_coop := %s |}", a.Dur, a.Out.Gallina(), gBool(a.Coop))
+		attLits := func(l []HAttempt) []string {
+			xs := make([]string, len(l))
+			for i, a := range l {
+				xs[i] = fmt.Sprintf("{| a_dur := %d; a_out := %s; a_coop := %s |}", a.Dur, a.Out.Gallina(), gBool(a.Coop))
+			}
+			return xs
+		}
+		as := attLits(h.Atts)
+		second := "None"
+		if h.RetryDelay > 0 {
+			second = fmt.Sprintf("(Some (%d, %s))", h.RetryDelay, gList(attLits(h.Atts2)))
 		}
 		ext := "None"
 		if h.ExtT > 0 {
@@ -127,7 +151,7 @@ func runHedge(t *testing.T, h HCase) (lit string, js map[string]any, hedged int,
 			}
 			ext = fmt.Sprintf("(Some (%d, %s))", base+h.ExtT, e)
 		}
-		lit = fmt.Sprintf("%s\n  %s %s %d\n  %s %d %s %s %s", h.cfgGallina(), gList(as), ext, base, gOutcome(r, err), end, gList(st), gList(hedgeEvents), gList(cs))
+		lit = fmt.Sprintf("%s\n  %s %s %s %d\n  %s %d %s %s %s", h.cfgGallina(), gList(as), second, ext, base, gOutcome(r, err), end, gList(st), gList(hedgeEvents), gList(cs))
 		js = map[string]any{"config": h.cfgGallina(), "attempts": strings.Join(as, " "), "external_cancel": ext, "returned": gOutcome(r, err), "end": end - base,
 			"attempt_starts": strings.Join(st, " "), "on_hedge_instants": strings.Join(hedgeEvents, " "), "cancelled_at_return": strings.Join(cs, " ")}
 	})
@@ -160,6 +184,16 @@ func genHedgeCase(r *Rng) HCase {
 	if r.Chance(30) {
 		h.ExtT = int64(r.Intn(40))*1024 + 256
 		h.ExtK = Pick(r, []string{"Cancel", "Deadline"})
+	} else if r.Chance(35) {
+		// the hedge inside a retry: the first hedged run fails, the second starts later in the execution
+		h.RetryDelay = int64(1+r.Intn(20))*1024 + 128
+		h.Delays = h.Delays[:1] // the harness' delay function indexes by the execution-wide hedge count: keep one delay
+		for i := 0; i <= h.Max; i++ {
+			h.Atts2 = append(h.Atts2, HAttempt{Dur: int64(r.Intn(30))*1024 + int64(13*i+5), Out: genOutcome(r), Coop: r.Chance(60)})
+		}
+		e := sent(0)
+		h.Atts[0].Out = OutD{R: 0, Err: &e}
+		h.Atts[0].Dur = int64(r.Intn(3))*1024 + 7
 	}
 	return h
 }
@@ -181,6 +215,9 @@ func TestDrive_C09(t *testing.T) {
 		w.Stat("hedges_started=" + bucket(hedged))
 		if h.ExtT > 0 {
 			w.Stat("external_cancel")
+		}
+		if h.RetryDelay > 0 {
+			w.Stat("inside_retry")
 		}
 	}
 	// corpus: finding F9 — a cancelled hedge with cancel conditions must not wait out the hedge delay
